@@ -554,21 +554,20 @@ Definition group_clause : P clause :=
 
 Definition intp : P (bool * bytes) := lift integer.
 
-Definition limit_clause : P clause :=
-  let* _ := kw K_LIMIT in let* _ := skip in
-  let* n := intp in
-  fun s => match conv_u32 fx SiteLimit (fst n) (snd n) with
-           | Ok v => Ok (ClLimit v, s)
+(** the action of limit_clause / offset_clause: [n.parse::<u32>().unwrap()] *)
+Definition conv_clause (site : numsite) (mk : N -> clause) (n : bool * bytes) : P clause :=
+  fun s => match conv_u32 fx site (fst n) (snd n) with
+           | Ok v => Ok (mk v, s)
            | Err => Err | Panic k => Panic k | OOF => OOF
            end.
 
+Definition limit_clause : P clause :=
+  let* _ := kw K_LIMIT in let* _ := skip in
+  let* n := intp in conv_clause SiteLimit ClLimit n.
+
 Definition offset_clause : P clause :=
   let* _ := kw K_OFFSET in let* _ := skip in
-  let* n := intp in
-  fun s => match conv_u32 fx SiteOffset (fst n) (snd n) with
-           | Ok v => Ok (ClOffset v, s)
-           | Err => Err | Panic k => Panic k | OOF => OOF
-           end.
+  let* n := intp in conv_clause SiteOffset ClOffset n.
 
 (** [ci('ORDER') _ ci('BY') _ f:field() _ d:$(ci('ASC') / ci('DESC'))?] *)
 Definition order_clause : P clause :=
